@@ -94,6 +94,15 @@ def _config(c):
                                seq_filter={"alpha": 0.5})
 
 
+def _policy(name):
+    """A fresh decision object of the named policy (fresh: nothing kept from earlier calls)."""
+    from resonaate.scenario.config import constructFromUnion
+    from resonaate.scenario.config.decision_config import DecisionConfig
+    from resonaate.tasking.decisions import decisionFactory
+
+    return decisionFactory(constructFromUnion(DecisionConfig, {"name": name}))
+
+
 def _unit(v):
     v = np.asarray(v, dtype=float)
     return v / np.linalg.norm(v)
@@ -203,6 +212,14 @@ def _bookkeeping(c, snaps, rec):
         # (task rows are written for output epochs only; observations and misses of the steps in between are kept and written later)
         if s.get("output_epoch", True) and (len(db_task) != d.size or sum(1 for r in db_task if r[4]) != int(d.sum())):
             raise Violation("stored_tasks", f"step {s['k']}: {len(db_task)} task rows with {sum(1 for r in db_task if r[4])} decisions for a {d.shape} decision matrix with {int(d.sum())} taskings")
+        # the decision the engine acted on is the configured policy applied to the step's reward and visibility matrices
+        # (random policy: feasibility only; its draw is not reproducible from outside)
+        if c["policy"] != "RandomDecision":
+            want_d = _policy(c["policy"]).calculate(s["reward"].copy(), s["visibility"].copy())
+            if not np.array_equal(np.asarray(want_d, dtype=bool), d):
+                raise Violation("engine_decision", f"step {s['k']}: the engine's decision {d.astype(int).tolist()} is not {c['policy']} applied to its reward {s['reward'].tolist()} and visibility {s['visibility'].astype(int).tolist()} (that gives {np.asarray(want_d).astype(int).tolist()})")
+        elif np.any(d & ~s["visibility"]):
+            raise Violation("engine_decision", f"step {s['k']}: random decision tasks an invisible pair")
         # (ii) pointing state
         for j, sid in enumerate(sl):
             tgt_rows = [i for i in range(d.shape[0]) if d[i, j]]
